@@ -852,6 +852,74 @@ def case_shield(ctx, cls, where):
                                            "header": header, "varnames": varnames})
 
 
+class _Multiline:
+    """An object whose text form spans several lines."""
+    def __init__(self, text):
+        self.text = text
+
+    def __str__(self):
+        return self.text
+
+    __repr__ = __str__
+
+
+def case_header_values(ctx, cls):
+    """Header values that are not plain strings (lists, tuples, dicts, numbers, objects) with line breaks inside:
+    whatever the writer makes of them must stay inside the comments."""
+    with TempDir() as tmp:
+        serial = 0
+        for cont in CONTINUATIONS[:6] + ["+1 x1 +1 x2 >= 2", "* #variable= 9 #constraint= 9"]:
+            text = "second step\n" + cont
+            values = [["first step", text], ("first step", text), [text], (text,), {"step": text}, {text: 1}, [["nested", text]],
+                      _Multiline(text), [_Multiline(text), 2], 7, 2.5, None, True, ["one", "two"], (), [], {"a": "b"}, text.encode()]
+            for vi, value in enumerate(values):
+                how = ("explicit", "extension", "writer")[(vi + serial) % 3]
+                F = shield_formula(cls)
+                F.header["note"] = value
+                F.header[("steps", vi) if vi % 5 == 4 else "steps %d" % vi] = value
+                mem = Memory(F)
+                fid = mem.digest(F)
+                serial += 1
+                st, out = render(ctx, F, (how, "opb", True, True), tmp, serial)
+                label = "%s %s(opb, header and varnames on), header value %r" % (cls, how, value)
+                if st == "exc":
+                    ctx.violation("render:opb:%s:raises:%s" % (mem.kind.upper(), type(out).__name__), "%s raised %r" % (label, out))
+                else:
+                    judge_opb(ctx, F, mem, out, label, True, True)
+                ctx.count("header_value_cases")
+                ctx.count("header_value_type_" + type(value).__name__)
+                ctx.judged(("header-value", cls, cont, vi, how, fid), sample={"class": cls, "header_value": repr(value)[:80], "path": how})
+
+
+def case_block_sizes(ctx, cls, sizes):
+    """Formulas whose number of rows is a power of two or a small multiple of one (writers that buffer their output
+    work in blocks of such sizes), and their neighbours."""
+    K = classes()[cls]
+    with TempDir() as tmp:
+        serial = 0
+        for m in sizes:
+            F = K()
+            n = 50
+            F.update_variable_number(n)
+            if cls.startswith("CNF"):
+                F.add_clauses_from([[(i % n) + 1, -(((i * 7) % n) + 1)] if i % 3 else [-((i % n) + 1)] for i in range(m)], check=False)
+            else:
+                for i in range(m):
+                    F.add_constraint([(1 + i % 3, (i % n) + 1), (2, -(((i * 7) % n) + 1)), ">=" if i % 2 else "==", 1 + i % 2], check=False)
+            mem = Memory(F)
+            fid = mem.digest(F)
+            for how in ("explicit", "writer"):
+                serial += 1
+                st, out = render(ctx, F, (how, "opb", bool(serial % 2), False), tmp, serial)
+                label = "%s %s(opb) of a formula with %d rows" % (cls, how, m)
+                if st == "exc":
+                    ctx.violation("render:opb:%s:raises:%s" % (mem.kind.upper(), type(out).__name__), "%s raised %r" % (label, out))
+                else:
+                    judge_opb(ctx, F, mem, out, label, bool(serial % 2), False)
+                ctx.count("block_size_cases")
+                ctx.judged(("block-size", cls, m, how, fid), sample={"class": cls, "rows": m, "path": how})
+
+
 def case_long_lines(ctx, cls):
     """Header values, descriptions and variable names far longer than a terminal line (one line each): the OPB text
     must keep them inside comments, whatever the writer does to long lines."""
@@ -970,6 +1038,10 @@ def workload(tier, seed):
             yield "shield", {"cls": cls, "where": where}
     for cls in ("CNF", "OPB"):
         yield "long_lines", {"cls": cls}
+        yield "header_values", {"cls": cls}
+        for sizes in ([[256, 4096, 8192], [8191, 8193, 16384], [65536]] if quick else
+                      [[1 << k, (1 << k) + 1, (1 << k) - 1] for k in range(8, 18)] + [[3 << 12, 3 << 13, 5 << 13], [3 << 15, 1 << 18]]):
+            yield "block_sizes", {"cls": cls, "sizes": sizes}
     for ch in chunks(PROCESS_RUNS, 2 if quick else 1):
         yield "process", {"runs": [list(x) for x in ch]}
     for ch in chunks(cli_runs(tier, seed), 5):
